@@ -131,8 +131,18 @@ _RT_RE = re.compile(r'runtime error: (.*)')
 _FRAME_RE = re.compile(r'#\d+ 0x[0-9a-f]+ in (.+?) (/\S+?):(\d+)')
 
 
+_CTX_RE = re.compile(r'VF-CONTEXT: (.*)')
+
+
 def crash_signature(stderr_text, rc):
-    """Stable key for an abnormal exit: sanitizer kind + first library frame (function, file) without line numbers."""
+    """Stable key for an abnormal exit: driver context marker (if any) + sanitizer kind + first library frame
+    (function, file) without line numbers."""
+    ctx = _CTX_RE.findall(stderr_text)
+    prefix = (ctx[-1].strip() + ': ') if ctx and ctx[-1].strip() != 'none' else ''
+    return prefix + _crash_signature(stderr_text, rc)
+
+
+def _crash_signature(stderr_text, rc):
     kind = None
     m = _SUMMARY_RE.search(stderr_text)
     if m:
@@ -165,10 +175,11 @@ class Job:
     """One (driver binary, mode, count) unit; fanned out over `workers` processes."""
 
     def __init__(self, name, driver, mode, count, flavour='asan', defines=None, shim=False, leaks=False,
-                 timeout=900, single_timeout=120, workers=None, extra=None):
+                 timeout=900, single_timeout=120, workers=None, extra=None, max_crashes=25):
         self.name, self.driver, self.mode, self.count = name, driver, mode, count
         self.flavour, self.defines, self.shim, self.leaks = flavour, dict(defines or {}), shim, leaks
         self.timeout, self.single_timeout, self.workers, self.extra = timeout, single_timeout, workers, extra
+        self.max_crashes = max_crashes
         self.exe = None
 
     def spec(self):
@@ -313,8 +324,8 @@ def run_job(job, seed, tier, workdir, log):
             res['violations'].append(v)
             res['evaluations'] += max(0, (idx - a['start']) // W)
             crashes[w] = crashes.get(w, 0) + 1
-            if crashes[w] >= 25:
-                res['inconclusive'].append('job %s worker %d: more than 25 crashing cases, remaining cases of this worker not run' % (job.name, w))
+            if crashes[w] >= job.max_crashes:
+                res['inconclusive'].append('job %s worker %d: too many crashing cases, remaining cases of this worker not run' % (job.name, w))
                 continue
             if idx + 1 < total:
                 launch(w, idx + 1, a['gen'] + 1)
